@@ -111,6 +111,7 @@ type vRaftOp struct {
 }
 
 type vKit struct {
+	ids      []string
 	t        *testing.T
 	base     string
 	ns       *gnatsd.Server
@@ -163,13 +164,14 @@ func vPolicyName(p client.AckPolicy) string {
 	return "NONE"
 }
 
-func newVKit(t *testing.T, ns *gnatsd.Server, gate *vFollowGate, n int, minISR, fetchMax int) *vKit {
+func newVKit(t *testing.T, ns *gnatsd.Server, gate *vFollowGate, n int, minISR, fetchMax int, ids []string) *vKit {
 	base, err := os.MkdirTemp("", "vkit")
 	if err != nil {
 		t.Fatalf("tempdir: %v", err)
 	}
 	k := &vKit{
-		t: t, base: base, ns: ns, url: ns.ClientURL(), gate: gate,
+		ids: ids,
+		t:   t, base: base, ns: ns, url: ns.ClientURL(), gate: gate,
 		stream: fmt.Sprintf("s%d", n), subject: fmt.Sprintf("subj%d", n),
 		srv: map[string]*Server{}, isr: map[string]bool{}, hwDisk: map[string]int64{},
 		lastLog: map[string][]vRepRec{}, lastHW: map[string]int64{}, lastIsr: map[string]map[string]int64{},
@@ -279,7 +281,7 @@ func (k *vKit) commit(log *proto.RaftLog) vRaftOp {
 
 // create commits CREATE_STREAM (index 1) with leader a and ISR {a,b,c}.
 func (k *vKit) create() {
-	for _, id := range vKitIDs {
+	for _, id := range k.ids {
 		k.srv[id] = k.newServer(id)
 		k.hwDisk[id] = -1
 		k.isr[id] = true
@@ -290,13 +292,13 @@ func (k *vKit) create() {
 		CreateStreamOp: &proto.CreateStreamOp{Stream: &proto.Stream{
 			Name: k.stream, Subject: k.subject, CreationTimestamp: time.Now().UnixNano(),
 			Partitions: []*proto.Partition{{
-				Subject: k.subject, Stream: k.stream, Id: 0, ReplicationFactor: 3,
-				Replicas: []string{"a", "b", "c"}, Isr: []string{"a", "b", "c"}, Leader: "a",
+				Subject: k.subject, Stream: k.stream, Id: 0, ReplicationFactor: int32(len(k.ids)),
+				Replicas: append([]string{}, k.ids...), Isr: append([]string{}, k.ids...), Leader: "a",
 			}},
 		}},
 	})
 	k.lepoch = op.idx
-	for _, id := range vKitIDs {
+	for _, id := range k.ids {
 		if err := k.applyTo(id, op, false); err != nil {
 			k.t.Fatalf("create on %s: %v", id, err)
 		}
@@ -344,7 +346,7 @@ func (k *vKit) settle() {
 	for i := 0; i < 400 && stable < 3; i++ {
 		time.Sleep(4 * time.Millisecond)
 		cur := fmt.Sprintf("%d", k.ackCount())
-		for _, id := range vKitIDs {
+		for _, id := range k.ids {
 			if p := k.part(id); p != nil {
 				cur += fmt.Sprintf("|%d:%d:%d", p.log.HighWatermark(), p.log.NewestOffset(), len(p.commitCheck))
 			}
@@ -423,7 +425,7 @@ func (k *vKit) fetch(f string) string {
 
 func (k *vKit) upIDs() []string {
 	out := []string{}
-	for _, id := range vKitIDs {
+	for _, id := range k.ids {
 		if _, ok := k.srv[id]; ok {
 			out = append(out, id)
 		}
@@ -653,7 +655,7 @@ func (k *vKit) state() vRepState {
 		HW: map[string]int64{}, HWDisk: map[string]int64{}, Ec: map[string][]vEpochEntry{},
 		IsrOff: map[string]map[string]int64{}, PendN: map[string]int64{},
 	}
-	for _, id := range vKitIDs {
+	for _, id := range k.ids {
 		p := k.part(id)
 		st.Up[id] = p != nil
 		st.HWDisk[id] = k.hwDisk[id]
@@ -778,7 +780,11 @@ func TestVerifReplication(t *testing.T) {
 	VerifGateStopHook = gate.hook
 	defer func() { VerifGateStopHook = nil }()
 	for _, b := range sf.Behaviours {
-		k := newVKit(t, ns, gate, b.ID, int(vIntDef(b.Cfg, "minISR", 2)), int(vIntDef(b.Cfg, "fetchMax", 2)))
+		ids := vKitIDs
+		if vIntDef(b.Cfg, "rf", 3) == 1 {
+			ids = []string{"a"}
+		}
+		k := newVKit(t, ns, gate, b.ID, int(vIntDef(b.Cfg, "minISR", 2)), int(vIntDef(b.Cfg, "fetchMax", 2)), ids)
 		k.create()
 		tw.Emit(vRepEvent{T: b.ID, A: "Open", Args: map[string]interface{}{}, St: k.state(),
 			Obs: map[string]interface{}{"acks": []vAck{}, "nacks": []int64{}}})
